@@ -268,6 +268,12 @@ func (c *FuncCtx) evalCommaOk(st *State, e ast.Expr, n int) []*Val {
 			in := mkSel(acc("dom_"+m.Sort, m.S), k.S)
 			v := c.val(mkIte(in, mkSel(acc("val_"+m.Sort, m.S), k.S), c.eng.zero(mt.Elem())), mt.Elem())
 			st.assume(c.eng.typeFacts(v.S, v.T))
+			if !c.inSpec(st) && c.eng.spec.WfNonNil {
+				// trusted (wf nonnil-elements): a key that is present holds no nil entry
+				if p, ok := under(mt.Elem()).(*types.Pointer); ok && c.eng.isHeapStruct(p.Elem()) {
+					st.assume(mkImplies(in, app("<", "0", v.S)))
+				}
+			}
 			return []*Val{v, {T: tBool, S: in, Sort: "Bool"}}
 		}
 	case *ast.TypeAssertExpr:
